@@ -129,11 +129,8 @@ func init() {
 		if !lv.IsValid() { // New: `if !lv.IsValid()` (WithLevel itself panics on an invalid level)
 			return "err invalid level"
 		}
-		if a[1] == "1" {
-			q, err = qrcode.VerifNewFromKanji(lv, parseHex(a[2]))
-		} else {
-			q, err = qrcode.VerifNewQR(lv, parseHex(a[2]))
-		}
+		// through the PUBLIC entry point, so that the option handling of New is part of what is compared
+		q, err = qrcode.New(parseHex(a[2]), qrcode.WithLevel(lv), qrcode.WithKanji(a[1] == "1"))
 		if err != nil {
 			return "err " + err.Error()
 		}
@@ -183,11 +180,7 @@ func init() {
 		if lv < 0 || lv >= 4 {
 			return "err invalid level"
 		}
-		if a[1] == "1" {
-			q, err = microqr.VerifNewFromKanji(lv, parseHex(a[2]))
-		} else {
-			q, err = microqr.VerifNewQR(lv, parseHex(a[2]))
-		}
+		q, err = microqr.New(parseHex(a[2]), microqr.WithLevel(lv), microqr.WithKanji(a[1] == "1"))
 		if err != nil {
 			return "err " + err.Error()
 		}
@@ -247,11 +240,7 @@ func init() {
 			return "err invalid level"
 		}
 		p := rmqr.Priority(atoi(a[1]))
-		if a[2] == "1" {
-			q, err = rmqr.VerifNewFromKanji(lv, p, parseHex(a[3]))
-		} else {
-			q, err = rmqr.VerifNewQR(lv, p, parseHex(a[3]))
-		}
+		q, err = rmqr.New(parseHex(a[3]), rmqr.WithLevel(lv), rmqr.WithKanji(a[2] == "1"), rmqr.WithPriority(p))
 		if err != nil {
 			return "err " + err.Error()
 		}
